@@ -82,14 +82,26 @@ package server
 //@   ensures result == lower(msg.Args[0]) && msg._command == result
 
 //@ func Server.writeAOF
-//@   assumed
 //@   requires [A1.log] lock == 2
-//@   modifies pending, s.aofbuf, s.aofsz, s.shrinklog, s.aofdirty, s.lstack
-//@   ensures (d == nil || d.updated) ==> !pending
-//@   ensures !(d == nil || d.updated) ==> pending == old(pending)
+//@   requires s != nil && s.config != nil
+//@   frame-by-effects
+//@   modifies pending, steps, perCall
+// `pending` (a mutation not yet handed to the log) is pure specification state: it is defined as cleared by writeAOF
+// exactly when writeAOF accepts the command
+//@   ensures [ghost-def.logged] (d == nil || d.updated) ==> !pending
+//@   ensures [ghost-def.ignored] !(d == nil || d.updated) ==> pending == old(pending)
 // the size counter counts what is in the file plus what is buffered; without a log file nothing is buffered
-//@   ensures [counts-buffered] s.aofsz - len(s.aofbuf) == old(s.aofsz) - len(old(s.aofbuf)) && len(s.aofbuf) >= len(old(s.aofbuf))
-//@   ensures s.aof == nil ==> len(s.aofbuf) == len(old(s.aofbuf))
+//@   ensures [counts-buffered] s.aofsz - len(s.aofbuf) == old(s.aofsz) - len(old(s.aofbuf))
+//@   ensures [buffer-grows] len(s.aofbuf) >= len(old(s.aofbuf))
+//@   ensures s.aof == old(s.aof) && (s.aof == nil ==> len(s.aofbuf) == len(old(s.aofbuf)))
+// an accepted write is appended, whole, to the write buffer, marks the buffer dirty (C08), and - while a rewrite of the
+// log is running - is also kept for the rewrite (C09)
+//@   ensures [buffered] (d == nil || d.updated) && s.aof != nil ==> s.aofbuf == encArgsOnto(encHead(old(s.aofbuf), args), args, len(args)) && s.aofdirty
+//@   ensures [kept-for-rewrite] (d == nil || d.updated) && old(s.shrinking) ==> len(s.shrinklog) == len(old(s.shrinklog)) + 1 && forall(i, 0, len(old(s.shrinklog)), s.shrinklog[i] == old(s.shrinklog)[i])
+//@   ensures [kept-whole] (d == nil || d.updated) && old(s.shrinking) ==> len(s.shrinklog[len(s.shrinklog)-1]) == len(args) && forall(i, 0, len(args), s.shrinklog[len(s.shrinklog)-1][i] == args[i])
+//@   ensures [ignored-when-unchanged] !(d == nil || d.updated) ==> s.aofbuf == old(s.aofbuf) && s.shrinklog == old(s.shrinklog) && s.aofsz == old(s.aofsz)
+//@   uses enc.args.0, enc.args.step
+//@   loop 1 invariant len(s.aofbuf) >= len(old(s.aofbuf)) && s.aofbuf == encArgsOnto(encHead(old(s.aofbuf), args), args, idx1) && s.aof != nil
 
 // Server.command is the pure dispatcher: inside handleInputCommand it is inlined (so that every handler call is
 // checked against the lock and gate state); other callers see it as "one command executed".
@@ -348,9 +360,9 @@ package server
 //@ ghost macro registriesNonNil(s) = s.hooks != nil && s.hooksOut != nil && s.groupHooks != nil && s.groupObjects != nil && s.hookExpires != nil && s.hookTree != nil && s.hookCross != nil
 //@ func Server.followResetAOF
 //@   frame-by-effects
-//@   requires s != nil && registriesNonNil(s)
-//@   modifies fdata, fpos
-//@   ensures [log-empty] result == nil ==> s.aofsz == 0 && (old(s.aof) != nil ==> len(fdata) == 0 && fpos == 0 && s.aof != nil) && (old(s.aof) == nil ==> s.aof == nil && fdata == old(fdata))
+//@   requires s != nil && registriesNonNil(s) && (s.aof != nil ==> fname(s.aof) == liveName())
+//@   modifies fdata, fpos, flx, fsd, fsx, fsy
+//@   ensures [log-empty] result == nil ==> s.aofsz == 0 && (old(s.aof) != nil ==> len(fdata) == 0 && fpos == 0 && s.aof != nil && fname(s.aof) == liveName() && flx) && (old(s.aof) == nil ==> s.aof == nil && fdata == old(fdata))
 //@   ensures [dataset-empty] result == nil ==> datasetEmpty(s)
 // After followCheckSome the follower's log file, its size counter and the position it asks the leader to stream from
 // are the same number, nothing is left in the write buffer, and whenever the log was cut the dataset was rebuilt from
@@ -361,14 +373,14 @@ package server
 //@   internal-caller
 //@   frame-by-effects
 //@   requires s != nil && lock == 0 && !pending
-//@   after-lock s.aof != nil && registriesNonNil(s) && len(fdata) >= 0 && len(s.aofbuf) >= 0 && s.aofsz == len(fdata) + len(s.aofbuf) && fpos == len(fdata) && ncomplete == ndispatched
-//@   modifies lock, steps, ndispatched, lastDispatched, perCall, fdata, fpos, ncomplete
+//@   after-lock s.aof != nil && fname(s.aof) == liveName() && flx && registriesNonNil(s) && len(fdata) >= 0 && len(s.aofbuf) >= 0 && s.aofsz == len(fdata) + len(s.aofbuf) && fpos == len(fdata) && ncomplete == ndispatched
+//@   modifies lock, steps, ndispatched, lastDispatched, perCall, fdata, fpos, ncomplete, flx, fsd, fsx, fsy
 //@   ensures [lock-balance] lock == 0
 //@   ensures [resume-at-log-end] err == nil ==> pos == s.aofsz
 //@   ensures [size-is-file-size] err == nil ==> s.aofsz == len(fdata)
 //@   loop 1 invariant lock == 2 && !pending
 //@   loop 1 invariant 0 <= min && min <= limit && limit <= s.aofsz && min >= 524288
-//@   loop 1 invariant s.aof != nil && registriesNonNil(s) && len(s.aofbuf) == 0 && s.aofsz == len(fdata)
+//@   loop 1 invariant s.aof != nil && fname(s.aof) == liveName() && flx && registriesNonNil(s) && len(s.aofbuf) == 0 && s.aofsz == len(fdata)
 //@   loop 1 invariant ncomplete == ndispatched
 //@   loop 1 decreases limit - min
 
@@ -392,7 +404,7 @@ package server
 //@   frame-by-effects
 //@   requires s != nil && lock == 0 && !pending && len(args) > 0
 //@   after-lock s.aofsz >= 0 && (len(s.aofbuf) > 0 ==> s.aof != nil)
-//@   modifies lock, ndispatched, lastDispatched, fdata, fpos
+//@   modifies lock, ndispatched, lastDispatched, fdata, fpos, steps, perCall
 //@   ensures [lock-balance] lock == 0
 //@   ensures [returns-log-size] result0 == s.aofsz
 //@   at-call Server.command [A4.apply-under-lock] lock == 2
@@ -406,7 +418,7 @@ package server
 //@   frame-by-effects
 //@   requires s != nil && lock == 0 && !pending
 //@   after-lock s.aofsz >= 0 && (len(s.aofbuf) > 0 ==> s.aof != nil)
-//@   modifies lock, steps, ndispatched, lastDispatched, perCall, fdata, fpos, ncomplete
+//@   modifies lock, steps, ndispatched, lastDispatched, perCall, fdata, fpos, ncomplete, flx, fsd, fsx, fsy
 //@   ensures [lock-balance] lock == 0
 // the leader streams the commands of its own log, none of which is empty
 //@   env-at-call Server.followHandleCommand len(arg0) > 0
@@ -415,3 +427,83 @@ package server
 //@   at-call Server.setCaughtUp#2 [justified-at-connect] arg0 ==> pos >= aofSize
 //@   at-call Server.setCaughtUp#3 [justified-by-log-size] arg0 ==> aofsz >= aofSize
 //@   loop 1 invariant lock == 0 && !pending
+
+// ---- AOFSHRINK (C09) --------------------------------------------------------------
+// The rewrite builds <name>-shrink from batches read under the lock, then, in ONE critical section: flushes the live
+// log, appends every command logged since the rewrite started (s.shrinklog, kept by writeAOF while s.shrinking),
+// fsyncs, and swaps the files. Ghost file system: contracts/extern/io.spec.
+//@ ghost macro shrinkName(s) = cat(s.opts.AppendFileName, "-shrink")
+//@ ghost macro bakName(s) = cat(s.opts.AppendFileName, "-bak")
+//@ ghost var shrOld string
+//@ ghost var shrNew string
+//@ ghost var shrPre string
+//@ ghost var curKey string
+//@ ghost var curId string
+//@ ghost var recStar string
+//@ ghost var swapping bool
+// the encoder written as the code writes it (accumulator style): head, then every argument, for every command in order
+//@ ghost func encArgsOnto(acc string, v []string, n int) string
+//@ ghost func encLogOnto(acc string, l [][]string, n int) string
+//@ ghost macro crlf(x) = app1(app1(x, 13), 10)
+//@ ghost macro encHead(acc, v) = crlf(cat(app1(acc, 42), fmtInt(len(v))))
+//@ axiom enc.args.0: allstr(acc, allof("[]string", v, encArgsOnto(acc, v, 0) == acc))
+//@ axiom enc.args.step: allstr(acc, allof("[]string", v, allint(n, 0 <= n && n < len(v) ==> encArgsOnto(acc, v, n+1) == crlf(cat(crlf(cat(app1(encArgsOnto(acc, v, n), 36), fmtInt(len(v[n])))), v[n])))))
+//@ axiom enc.log.0: allstr(acc, allof("[][]string", l, encLogOnto(acc, l, 0) == acc))
+//@ axiom enc.log.step: allstr(acc, allof("[][]string", l, allint(n, 0 <= n && n < len(l) ==> encLogOnto(acc, l, n+1) == encArgsOnto(encHead(encLogOnto(acc, l, n), l[n]), l[n], len(l[n])))))
+// crashSafe: whatever happens next, a restart (which opens liveName() and nothing else) finds either the complete old
+// log or the complete new one
+//@ ghost macro crashSafe() = flx && (fdata == shrOld || fdata == shrNew)
+//@ func Server.aofshrink
+//@   lockcheck
+//@   internal-caller
+//@   frame-by-effects
+//@   uses enc.args.0, enc.args.step, enc.log.0, enc.log.step, btree.map.from.len
+//@   requires s != nil && lock == 0 && !pending && !swapping && s.opts.AppendFileName == liveName()
+//@   after-lock (s.aof != nil ==> fname(s.aof) == liveName() && flx) && (len(s.aofbuf) > 0 ==> s.aof != nil) && fpos == len(fdata)
+//@   modifies lock, steps, fdata, fpos, flx, fsd, fsx, fsy, shrOld, shrNew, shrPre, curKey, curId, recStar, swapping
+//@   ensures [lock-balance] lock == 0
+// -- batches: keys are taken 8 at a time from where the previous batch stopped, ids 32 at a time, each key from ""
+//@   loop 1 entry [keys-from-start] nextkey == "" && len(keys) == 0 && !keysdone
+//@   loop 1 invariant lock == 0 && !pending
+//@   set-at-call btree.Map.Ascend#1 curKey = nextkey
+//@   loop 2 invariant lock == 2 && keysdone && len(keys) == idx2 && idx2 <= 8 && forall(i, 0, idx2, keys[i] == mapKeysFrom(*s.cols, curKey)[i])
+//@   at-call rwlocker.Unlock#4 [key-batch.all] keysdone ==> len(keys) == len(mapKeysFrom(*s.cols, curKey)) && forall(i, 0, len(keys), keys[i] == mapKeysFrom(*s.cols, curKey)[i])
+//@   at-call rwlocker.Unlock#4 [key-batch.more] !keysdone ==> len(keys) == 8 && len(mapKeysFrom(*s.cols, curKey)) > 8 && nextkey == mapKeysFrom(*s.cols, curKey)[8] && forall(i, 0, 8, keys[i] == mapKeysFrom(*s.cols, curKey)[i])
+//@   set-at-call Collection.ScanGreaterOrEqual#1 curId = nextid
+//@   loop 4 invariant lock == 2 && idsdone && count == idx4 && idx4 <= 32
+//@   at-call rwlocker.Unlock#5 [id-batch.all] ok && idsdone ==> count == len(geSeq(col, curId, false))
+//@   at-call rwlocker.Unlock#5 [id-batch.more] ok && !idsdone ==> count == 32 && len(geSeq(col, curId, false)) > 32 && nextid == objID(geSeq(col, curId, false)[32])
+// -- one SET record per visited object: key, id, (fields), deadline when there is one, then the value; all of it written
+//@   closure 1 invariant lock == 2 && len(values) >= 3 && values[0] == "set" && values[1] == keys[0] && values[2] == objID(o)
+//@   at-call strconv.FormatInt#1 [record-head] len(values) >= 5 && values[0] == "set" && values[1] == keys[0] && values[2] == objID(o)
+//@   at-call strconv.FormatInt#1 [record-deadline] objExpires(o) != 0 ==> len(values) >= 7 && values[len(values)-4] == "ex"
+//@   at-call strconv.FormatInt#1 [record-value] values[len(values)-2] == "object" || values[len(values)-2] == "string"
+//@   set-at-call strconv.FormatInt#1 recStar = aofbuf
+//@   loop 5 invariant lock == 2 && aofbuf == encArgsOnto(crlf(cat(recStar, fmtInt(len(values)))), values, idx5)
+//@   loop 3 entry [ids-from-start] nextid == "" && !idsdone
+//@   loop 3 invariant lock == 0 && !pending && len(keys) > 0
+//@   loop 7 invariant lock == 0 && !pending
+//@   loop 10 invariant lock == 2 && !pending
+//@   loop 11 invariant lock == 2 && aofbuf == encLogOnto("", s.shrinklog, idx11)
+//@   loop 12 invariant lock == 2 && aofbuf == encArgsOnto(encHead(encLogOnto("", s.shrinklog, idx11), values), values, idx12)
+// -- the new file is complete before the swap starts: everything logged during the rewrite, in order, synced, and all of
+//    it inside the critical section that also does the swap
+//@   set-at-call os.File.Write#3 shrPre = fsd[shrinkName(s)]
+//@   at-call os.File.Write#3 [shrinklog-read-in-swap-section] lock == 2 && arg0 == encLogOnto("", s.shrinklog, len(s.shrinklog))
+//@   at-call os.File.Close#2 [shrinklog-complete] fsd[shrinkName(s)] == cat(shrPre, encLogOnto("", s.shrinklog, len(s.shrinklog)))
+//@   at-call os.File.Close#2 [new-file-synced] fsy[shrinkName(s)]
+//@   at-call os.File.Close#2 [live-log-flushed] len(s.aofbuf) == 0
+//@   set-at-call os.File.Close#2 shrOld = fdata
+//@   set-at-call os.File.Close#2 swapping = true
+//@   set-at-call os.File.Close#3 shrNew = fsd[shrinkName(s)]
+// -- crash invariant: once the live log has been closed for the swap, before every further file operation (= after the
+//    previous one) the live name exists and holds the complete old or the complete new log
+//@   at-call os.File.Close#3 [crash.close] lock == 2 && flx && fdata == shrOld
+//@   at-call os.Rename [crash.rename] swapping ==> lock == 2 && crashSafe()
+//@   at-call os.OpenFile [crash.open] swapping ==> lock == 2 && crashSafe()
+//@   at-call os.Remove [crash.remove] swapping ==> lock == 2 && crashSafe()
+//@   at-call os.Create [crash.create] swapping ==> lock == 2 && crashSafe()
+//@   at-call os.Truncate [crash.truncate] swapping ==> lock == 2 && crashSafe()
+//@   at-call os.File.Seek [crash.seek] swapping ==> lock == 2 && crashSafe()
+//@   at-call os.OpenFile#1 [swapped] swapping && fdata == shrNew
+//@   at-call os.File.Seek#1 [swapped] swapping && fdata == shrNew
